@@ -40,6 +40,8 @@ Fixpoint tr (fe : fenv) (s : store) (e : expr) : list ev :=
 Definition no_writes (fe : fenv) : Prop := forall f, f_writes (fe f) = [].
 
 Section NoWrites.
+  Variable pol : se_policy.
+  Hypothesis PA : p_args_propagate pol = true.   (* a call takes the attribute of its arguments *)
   Variable fe : fenv.
   Hypothesis NW : no_writes fe.
   Variable s : store.
@@ -78,13 +80,14 @@ Section NoWrites.
   Qed.
 
   (* ---- expressions the analyzer leaves unmarked have an empty trace ---- *)
-  Lemma f_se_nw f : f_se (fe f) = f_event (fe f).
+  Lemma f_se_nw f : f_se pol (fe f) = f_event (fe f).
   Proof. unfold f_se. rewrite NW. cbn. apply orb_false_r. Qed.
 
-  Lemma unmarked_silent : forall e, has_se fe e = false -> tr fe s e = [].
+  Lemma unmarked_silent : forall e, has_se pol fe e = false -> tr fe s e = [].
   Proof.
     induction e as [v|k x|f args IH|o l r IHl IHr] using expr_ind'; intros Hs; try reflexivity.
     - cbn [has_se tr] in *. apply orb_false_iff in Hs. destruct Hs as (Hf & Hnone).
+      rewrite PA in Hnone. cbn [andb] in Hnone.
       rewrite f_se_nw in Hf. rewrite Hf, app_nil_r.
       induction IH as [|a r' Ha _ IHr']; [reflexivity|].
       cbn [existsb flat_map] in *. apply orb_false_iff in Hnone. destruct Hnone as (N1 & N2).
